@@ -53,6 +53,19 @@ func cgoCalls(fn *ssa.Function, cname string) []*ssa.Call {
 	return out
 }
 
+// cgoCallsFlat: call sites inside fn itself only (for analyses with their own interprocedural step).
+func cgoCallsFlat(fn *ssa.Function, cname string) []*ssa.Call {
+	var out []*ssa.Call
+	instrsFlat(fn, func(ins ssa.Instruction) {
+		if c, ok := ins.(*ssa.Call); ok {
+			if n, ok := cgoName(c.Call.StaticCallee()); ok && (cname == "" || n == cname) {
+				out = append(out, c)
+			}
+		}
+	})
+	return out
+}
+
 // callsTo returns call instructions in fn whose static callee (or invoked method) has the name.
 func callsTo(fn *ssa.Function, name string) []ssa.CallInstruction {
 	var out []ssa.CallInstruction
